@@ -1194,7 +1194,12 @@ impl SvgElement {
         let mut v = bbox.scalarspec(attr_ss);
 
         // 'position' attribute, e.g. x/y/cx...
-        let (loc_str, dxy) = remain.split_once(' ').unwrap_or((remain, ""));
+        // (any white space separates the reference from what follows - a tab or a line
+        // break as well as a blank, as everywhere else in these attributes)
+        let (loc_str, dxy) = remain
+            .split_once(char::is_whitespace)
+            .map(|(loc, dxy)| (loc, dxy.trim_start()))
+            .unwrap_or((remain, ""));
         if let Some(ss) = loc_str.strip_prefix(SCALARSPEC_SEP) {
             // "[~scalarspec][ delta]"
             v = bbox.scalarspec(ss.parse()?);
